@@ -85,6 +85,9 @@ pub struct Spec {
     /// times, 150 us apart) before it goes on working: a join parked in its futex wait sees EINTR
     #[serde(default)]
     pub signal_joiner: bool,
+    /// the closure uses a frame of 256 KiB on the thread's stack before it returns
+    #[serde(default)]
+    pub deep: bool,
 }
 
 impl Spec {
@@ -102,7 +105,7 @@ pub fn encode_batch(b: &Batch) -> Vec<u8> {
     let mut pl = vec![1u8, b.specs.len() as u8, 0, 0];
     for s in &b.specs {
         pl.push(s.ty);
-        pl.push(if s.spurious && !s.panic { 2 } else if s.panic { 1 } else if s.nested == 1 { 3 } else if s.nested == 2 { 4 } else if s.signal_joiner { 5 } else { 0 });
+        pl.push(if s.spurious && !s.panic { 2 } else if s.panic { 1 } else if s.nested == 1 { 3 } else if s.nested == 2 { 4 } else if s.signal_joiner { 5 } else if s.deep { 6 } else { 0 });
         pl.push(s.disp);
         pl.push(s.inline as u8);
         pl.push(s.child_delay.kind());
